@@ -119,7 +119,16 @@ def run_case(cs):
         rel = world.rel_to(f, h)
         give_root = rng.random() < 0.5
         hroot = root if h == "." else os.path.join(root, h)
-        argv = ["-sf", os.path.join(root, f)] + ([hroot] if give_root else [])
+        via = root
+        if rng.random() < 0.25:
+            # the same tree reached through a symbolic link to one of its ancestors (the tree itself holds no links)
+            link = os.path.join(d, "link-to-case-dir")
+            if not os.path.islink(link):
+                os.symlink(d, link)
+            via = os.path.join(link, os.path.basename(root))
+            hroot = via if h == "." else os.path.join(via, h)
+            cs.count("info_sf_via_symlinked_ancestor")
+        argv = ["-sf", os.path.join(via, f)] + ([hroot] if give_root else [])
         r = drive.run("info", argv)
         cs.evaluated()
         cs.count("info_sf_judged")
@@ -131,7 +140,7 @@ def run_case(cs):
                     for fm, dg, a, _hd in rec["entries"]:
                         want.append((no, m["creatorinfo"]["creationdate"], fm, dg, a))
                         acts.add(a)
-        cs.cls("sf", "nested" if h != "." else "root", "+".join(sorted(acts)), "rootgiven" if give_root else "", r.exit)
+        cs.cls("sf", "nested" if h != "." else "root", "+".join(sorted(acts)), "rootgiven" if give_root else "", "symlink" if via != root else "", r.exit)
         c2 = {**ctx, "file": f, "history": h, "root_given": give_root}
         if r.internal:
             cs.violation(classify.internal_key(r), classify.internal_sig(r, "info-sf"), {**c2, **r.brief()})
